@@ -388,6 +388,9 @@ impl C12 {
                         // predict on training rows and fresh rows
                         let mut q = data.clone();
                         q.extend(case.queries.iter().cloned());
+                        // the model's own centroids are queries too (each must come back at distance zero,
+                        // also the stale centroid of a cluster that ended up without rows)
+                        q.extend(cents.iter().cloned());
                         let qm: DenseMatrix<T> = to_t_matrix(&q);
                         match guarded(|| model.predict(&qm)) {
                             Err(msg) => rep.fail("panic", "predict", format!("{}: predict panicked: {}", ctx, msg)),
